@@ -35,6 +35,7 @@ var DefaultSolvers = []Solver{
 	{"z3-5.1.0", []string{"z3-new", "-smt2"}},
 	{"z3-4.8.12", []string{"z3", "-smt2"}},
 	{"cvc5-1.0", []string{"cvc5", "--lang=smt2", "--strings-exp", "--produce-models", "--fmf-fun"}},
+	{"cvc5-1.0-enum", []string{"cvc5", "--lang=smt2", "--strings-exp", "--produce-models", "--enum-inst"}},
 }
 
 func runOne(ctx context.Context, sv Solver, file string, timeout time.Duration) QueryResult {
